@@ -81,6 +81,8 @@ def inputs(rep: Report, t: str, rng: random.Random) -> List[Tuple[str, str, dict
     for i, j in enumerate(JUNK):
         items.append((f"junk:{i}", j, {}))
         items.append((f"junk-safe:{i}", j, {"safe": True}))
+    import crossfeed
+    items += crossfeed.inputs(rep, t, rng, per_space=120 if t == "quick" else 1500)
     std = list(corpus.stdlib_files(max_lines=150 if t == "quick" else 400))
     n_std = 30 if t == "quick" else 300
     for origin, text in rng.sample(std, min(n_std, len(std))):
@@ -135,7 +137,8 @@ def main(argv=None) -> int:
     rep.coverage["rule"] = (
         "inputs: every Shapes.tla case (construct catalogue x position x trailing newline x options), every example "
         "snippet of the repository (plain, safe, as indented fragment, without trailing newline, truncated), junk strings, "
-        "a seeded sample of standard-library modules; one recorded format_code run each; non-trivial = the run changed the text")
+        "a seeded sample of standard-library modules, and a seeded sample of the program spaces of the other properties' generator specs "
+        "(Rename, Effects, Surface, Alpha, Subst, Geometry, Imports); one recorded format_code run each; non-trivial = the run changed the text")
     for key, source, opts, res, err, tr in list(by_id.values())[:: max(1, len(by_id) // 3)][:3]:
         rep.sample({"input_id": key, "source": source[:300], "events": [(e["k"], e["s"], e["n"]) for e in tr["ev"]][:30]})
     rep.assumptions += ["bounded time is judged with a wall-clock limit per call in a killable worker",
